@@ -64,6 +64,10 @@ func (o Op) String() string {
 //   append (RLIMIT_FSIZE: the write fails part-way), fsync (the write and the sync succeed, the sync is
 //   reported as failed: utils/verifhook.Fail), prewrite (fails before a byte is written)   -> append
 //   norepair (append fails part-way, then the truncation of the tail repair fails)         -> norepair
+//   fsync-norepair (the batch is written and synced, the sync is reported as failed, then the
+//   truncation that would cut the batch off fails: the batch stays on disk, "limbo")            -> fullnorepair
+//   closemanager (manager.Close() reports a failure inside Close; needs the hook point
+//   walstore:manager:close, probed at start-up)                                                -> closemanager
 //   wmsync / wmsyncf, rotate / rotatef, unlink:k / unlinkf:k: by resource limit / by hook  -> wmsync, rotate, unlink:k
 func fault(f string) string {
 	switch {
@@ -71,6 +75,8 @@ func fault(f string) string {
 		return "none"
 	case f == "fsync" || f == "prewrite":
 		return "append"
+	case f == "fsync-norepair":
+		return "fullnorepair"
 	case f == "wmsyncf":
 		return "wmsync"
 	case f == "rotatef":
@@ -86,6 +92,38 @@ func fault(f string) string {
 var failSink func(point string) error
 
 var errInjected = fmt.Errorf("injected by the C14 harness")
+
+// haveManagerCloseHook: the juno under test has the failure point walstore:manager:close (it was
+// added after the other points; without it the fault "closemanager" cannot be injected and is skipped).
+var haveManagerCloseHook bool
+
+// probeHooks opens and closes a scratch store and notes which failure points Close passes.
+func probeHooks(root string, res *lib.Result) {
+	dir := filepath.Join(root, "probe")
+	if err := os.MkdirAll(dir, 0o755); err != nil {
+		res.Fatalf("probe: %v", err)
+		return
+	}
+	defer os.RemoveAll(dir)
+	st, err := openReal(dir)
+	if err != nil {
+		res.Fatalf("probe: open: %v", err)
+		return
+	}
+	seen := map[string]bool{}
+	failSink = func(p string) error { seen[p] = true; return nil }
+	err = guard(st.Close)
+	failSink = nil
+	if err != nil {
+		res.Fatalf("probe: close: %v", err)
+	}
+	haveManagerCloseHook = seen["walstore:manager:close"]
+	if haveManagerCloseHook {
+		res.Hit("hook:manager-close-present")
+	} else {
+		res.Hit("hook:manager-close-absent")
+	}
+}
 
 type call struct {
 	Del bool
@@ -179,6 +217,9 @@ type runner struct {
 	serial   bool // RLIMIT_FSIZE injection allowed (nothing else runs)
 	acked    []call
 	calls    []call
+	// limbo: the calls of a batch that a flush reported as failed although it is completely on disk
+	// (fsync-norepair); the store is blocked and shows acked only; a restart finds acked ++ limbo
+	limbo []call
 	alive    bool
 	closed   bool
 	log      []Op
@@ -552,7 +593,7 @@ func (r *runner) checkImage(cop, ft string, idx int, b base, mask uint64, alt in
 			return
 		}
 	}
-	r.real.tmpMax = maxDel(r.acked, r.calls)
+	r.real.tmpMax = maxDel(r.durable(), r.calls)
 	dir, err := r.real.materialise(img, tv, r.rng)
 	if err != nil {
 		if errors.Is(err, errNoBytes) {
@@ -576,7 +617,7 @@ func (r *runner) checkImage(cop, ft string, idx int, b base, mask uint64, alt in
 		r.res.Hit("image:zombie-resurrected")
 	}
 	at := map[string]any{"cop": cop, "fault": fault(ft), "base": idx, "mask": ms, "tail": tv, "disk": parts[0]}
-	r.checkDir(dir, label, at, wantOK, want, allowed, r.acked, inflight, hasG && tv.Kind != "cut" && tv.Kind != "junk" && tv.Kind != "trailer")
+	r.checkDir(dir, label, at, wantOK, want, allowed, r.durable(), inflight, hasG && tv.Kind != "cut" && tv.Kind != "junk" && tv.Kind != "trailer")
 	_ = os.RemoveAll(dir)
 }
 
@@ -622,7 +663,7 @@ func (r *runner) tailVariants(n int, full bool, extra ...int) []tailVariant {
 // is still in the pre-state.
 func (r *runner) imagesOf(cop, ft string, bs []base, every bool) {
 	inflight := append([]call(nil), r.calls...)
-	allowed := [][]string{spec(r.acked)}
+	allowed := [][]string{spec(r.durable())}
 	if cop == "flush" || cop == "close" {
 		allowed = append(allowed, spec(append(append([]call(nil), r.acked...), inflight...)))
 	}
@@ -737,7 +778,7 @@ func (r *runner) hookImages(o Op, bs []base, preDisk diskDesc, renameUndurable b
 		return
 	}
 	inflight := append([]call(nil), r.calls...)
-	allowed := [][]string{spec(r.acked), spec(append(append([]call(nil), r.acked...), inflight...))}
+	allowed := [][]string{spec(r.durable()), spec(append(append([]call(nil), r.acked...), inflight...))}
 	removedTotal := 0
 	for _, s := range snaps {
 		if s.Point == "walstore:cleanup:removed-one" {
@@ -774,7 +815,7 @@ func (r *runner) hookImages(o Op, bs []base, preDisk diskDesc, renameUndurable b
 		}
 		at := map[string]any{"point": s.Point, "disk": desc.String()}
 		if haveWant {
-			r.checkDir(s.Dir, "hook:"+s.Point, at, wantOK, want, allowed, r.acked, inflight, false)
+			r.checkDir(s.Dir, "hook:"+s.Point, at, wantOK, want, allowed, r.durable(), inflight, false)
 		} else {
 			r.checkOracleOnly(s.Dir, "hook:"+s.Point, at, allowed, inflight)
 		}
@@ -874,10 +915,15 @@ func (r *runner) checkOracleOnly(dbPath, label string, at any, allowed [][]strin
 			return
 		}
 	}
-	sig := classify(got, allowed, r.acked, inflight)
+	sig := classify(got, allowed, r.durable(), inflight)
 	r.report(lib.Violation{Sig: sig,
 		What:   fmt.Sprintf("after a crash (%s) LoadAllEntries returns %d entries, allowed: %d or %d (%s)", label, len(got), len(allowed[0]), len(allowed[len(allowed)-1]), sig),
 		Replay: r.replay(map[string]any{"image": at, "label": label, "got": got, "allowed": allowed})})
+}
+
+// durable: the calls whose records the directory holds between two operations.
+func (r *runner) durable() []call {
+	return append(append([]call(nil), r.acked...), r.limbo...)
 }
 
 // snapshot copies the real directory as it is between two API calls and reopens the copy.
@@ -899,7 +945,7 @@ func (r *runner) snapshot() {
 		want, _ = parseLoad(strings.TrimPrefix(parts[1], "ok "))
 	}
 	r.res.Hit("image:snapshot")
-	r.checkDir(dst, "snapshot", "directory copied after the last operation", wantOK, want, [][]string{spec(r.acked)}, r.acked, nil, false)
+	r.checkDir(dst, "snapshot", "directory copied after the last operation", wantOK, want, [][]string{spec(r.durable())}, r.durable(), nil, false)
 	_ = os.RemoveAll(dst)
 }
 
@@ -1007,6 +1053,7 @@ type injector struct {
 	fsize    *syscall.Rlimit
 	swapped  string
 	injected bool
+	hits     map[string]bool // the failure points at which a failure was injected
 }
 
 // fail is the decision at a failure-injection point of the real code.
@@ -1021,6 +1068,10 @@ func (in *injector) fail(point string) error {
 		hit = point == "walstore:append:before-write" && n == 0
 	case "norepair":
 		hit = point == "walstore:repair:before-truncate"
+	case "fsync-norepair":
+		hit = (point == "walstore:append:after-sync" && n == 0) || point == "walstore:repair:before-truncate"
+	case "closemanager":
+		hit = in.op == "close" && point == "walstore:manager:close"
 	case "wmsyncf":
 		hit = point == "walstore:syncdir:after-sync" && n == 0
 	case "rotatef":
@@ -1036,13 +1087,14 @@ func (in *injector) fail(point string) error {
 	}
 	if hit {
 		in.injected = true
+		in.hits[point] = true
 		return errInjected
 	}
 	return nil
 }
 
 func (r *runner) newInjector(o Op, bs []base) *injector {
-	in := &injector{r: r, f: o.F, k: -1, op: o.K, seen: map[string]int{}, cleanup: hasTag(bs, "tmp")}
+	in := &injector{r: r, f: o.F, k: -1, op: o.K, seen: map[string]int{}, hits: map[string]bool{}, cleanup: hasTag(bs, "tmp")}
 	if strings.HasPrefix(o.F, "unlinkf:") {
 		in.k, _ = strconv.Atoi(strings.TrimPrefix(o.F, "unlinkf:"))
 		in.f = "unlinkf"
@@ -1229,6 +1281,10 @@ func (r *runner) exec(o Op) {
 	if r.failed {
 		return
 	}
+	if o.F == "closemanager" && !haveManagerCloseHook {
+		o.F = "" // the failure point is not in this juno: run the operation without the fault
+		r.res.Hit("closemanager:skipped-no-hook")
+	}
 	r.log = append(r.log, o)
 	r.res.Hit("op:" + o.K)
 	every := r.level >= 1 || r.hot > 0
@@ -1325,9 +1381,17 @@ func (r *runner) exec(o Op) {
 		// model and not by the error value; the running store must then show exactly that history.
 		live, lerr := loadReal(r.real.st)
 		committed := err == nil
+		limboNow := false
 		if err != nil && !wasClosed {
 			r.res.Hit(o.K + ":returned-error")
 			committed = r.real.knownBatches() > preKnown
+			if committed && inj.hits["walstore:append:after-sync"] && inj.hits["walstore:repair:before-truncate"] {
+				// the injected double failure: the sync was reported as failed with the batch on disk and
+				// the truncation that would have cut it off failed too. The batch is not acknowledged and
+				// not visible; the store is blocked; a restart will find the whole batch.
+				committed, limboNow = false, true
+				r.res.Hit(o.K + ":batch-in-limbo")
+			}
 			if committed {
 				r.res.Hit(o.K + ":error-after-commit")
 			}
@@ -1358,6 +1422,11 @@ func (r *runner) exec(o Op) {
 				r.blocked = true
 			}
 		}
+		if r.blocked && len(r.limbo) > 0 && r.real.knownBatches() > preKnown {
+			r.report(lib.Violation{Sig: "blocked-store-wrote-to-the-log",
+				What:   fmt.Sprintf("%s on a store whose writer is blocked (a reported-failed batch is still on disk) appended a record", o.K),
+				Replay: r.replay(nil)})
+		}
 		straddle := false
 		for _, fdesc := range postDisk.Files {
 			if fr := r.real.files[fdesc.Num]; fr != nil && len(fr.ends) >= 2 && totalBatches(postDisk) > totalBatches(preDisk) {
@@ -1378,6 +1447,13 @@ func (r *runner) exec(o Op) {
 		observable := !eq(preAcked, preBoth) || r.real.knownBatches() > preKnown
 		if cls(err) != mcls(m) || (err != nil && !wasClosed && observable && (m == "err-committed") != committed) {
 			r.mismatch("outcome:"+o.K, o.String(), m, fmt.Sprintf("%v committed=%v", err, committed))
+		}
+		if limboNow {
+			r.limbo = append([]call(nil), r.calls...)
+		}
+		r.res.Compared(1)
+		if ml := r.ask("limbo"); ml != strconv.Itoa(len(r.limbo)) {
+			r.mismatch("limbo", o.String(), ml, len(r.limbo))
 		}
 		if m == "err-notcommitted" || m == "err-committed" {
 			r.res.Hit(o.K + ":model-" + m)
@@ -1421,6 +1497,7 @@ func (r *runner) exec(o Op) {
 		r.alive, r.closed = true, false
 		r.lastFlushFailed, r.blocked = false, false
 		r.calls = nil
+		r.acked, r.limbo = r.durable(), nil
 	case "crash":
 		r.crash(o)
 		return
@@ -1563,8 +1640,10 @@ func (r *runner) crash(o Op) {
 	}
 	if included {
 		r.acked = append(r.acked, r.calls...)
+	} else {
+		r.acked = r.durable()
 	}
-	r.calls = nil
+	r.calls, r.limbo = nil, nil
 	r.alive, r.closed = false, false
 	// the files of the new directory are the ones the bookkeeping knows (same bytes)
 	r.real.prev = map[uint64]bool{}
@@ -1693,6 +1772,7 @@ func main() {
 		}
 		return nil
 	})
+	probeHooks(runRoot, res)
 	if f.Replay != "" {
 		replayFile(f, res)
 		_ = os.RemoveAll(runRoot)
